@@ -4,6 +4,12 @@ NOTES = ("All checks: bin/check <ID> --tier quick|thorough. Exit 0 held / 1 VIOL
          "Specification in spec/, harness in harness/, known findings in known_findings.jsonl; see DESIGN.md.")
 NOT_APPLICABLE = {}
 CHECKS = {
+    "C06": {
+        "level": "model_checking",
+        "technique": "TLA+ CssTokens.Canon / StyleEquivalent (formatting-only equivalence of token streams) judging, in TLC (Trace_Style), one event per input compiled in both styles: outcome, error message, logger deliveries and canonical token streams; inputs from TLC generators (MC_Style: 24 values x 27 places where evaluation turns a value into text; MC_Sheet; MC_Eval; MC_Nesting) and the golden corpus",
+        "text": "For every input the expanded and compressed compilations must agree on success/failure and error message, deliver identical @debug/@warn sequences, and produce token streams that are equal after dropping insignificant white space, the optional last semicolon, non-preserved comments and the charset declaration/BOM, with numbers and colours in canonical spelling.",
+        "note": "Number/colour canonicalisation (incl. rgb()/hsl() calls folded exactly) is done by the checker's tokenizer; outputs with unterminated strings are skipped. F11 (evaluation-time value-to-text conversion uses the output style) is a listed known finding, attributed only to generated cases of the matching value class and context.",
+    },
     "C05": {
         "level": "model_checking",
         "technique": "TLA+ CssTokens spec (pushdown acceptor for balanced blocks/brackets, Sass-only token classes, charset/BOM rule, whitelist predicate for CSS-representable values) judging, in TLC (Trace_Css), one event per successful compilation: output tokens, charset facts and the results of compiling the output again as CSS and as SCSS; inputs from TLC generators (MC_Sheet string/escape atoms and non-ASCII placements, MC_Eval programs, MC_Nesting trees) and the golden corpus x {expanded, compressed} x {charset on, off}",
